@@ -158,6 +158,43 @@ var checkC06v2 = register("C06/v2fields", func(f fieldCase2) string {
 	return grid2("environmental", e.Score(), e.Severity(), adm)
 })
 
+// reassignCase2: the v2 counterpart of reassignCase3 (Prev and Cur have the same group shape).
+type reassignCase2 struct {
+	Prev fieldCase2 `json:"fields_before"`
+	Cur  fieldCase2 `json:"fields_assigned"`
+}
+
+var checkC06v2Re = register("C06/v2reassigned", func(r reassignCase2) string {
+	if !inRange2(r.Prev) || !inRange2(r.Cur) || r.Prev.HasT != r.Cur.HasT || r.Prev.HasE != r.Cur.HasE {
+		return ""
+	}
+	e, err := build2(r.Prev)
+	if err != nil {
+		return fmt.Sprintf("shape template rejected: %v", err)
+	}
+	e.Base.Score()
+	e.Base.Severity()
+	e.Temporal.Score()
+	e.Temporal.Severity()
+	e.Score()
+	e.Severity()
+	f := r.Cur
+	bind.SetV2Base(e.Base, f.B)
+	if f.HasT {
+		bind.SetV2Temporal(e.Temporal, f.T)
+	}
+	if f.HasE {
+		bind.SetV2Env(e, f.E)
+	}
+	adm, _ := spec.V2Env(f.B, f.HasT, f.T, f.HasE, f.E)
+	for _, m := range []string{grid2("base", e.Base.Score(), e.Base.Severity(), spec.TSet{}), grid2("temporal", e.Temporal.Score(), e.Temporal.Severity(), spec.TSet{}), grid2("environmental", e.Score(), e.Severity(), adm)} {
+		if m != "" {
+			return "on an object queried before its fields were assigned: " + m
+		}
+	}
+	return ""
+})
+
 // builtCase2: a v2 object made by a constructor with its exported fields assigned, never
 // decoded (what the score then is — the groups count as absent — is C04/C05's business;
 // here only grid and band of whatever is reported).
@@ -228,7 +265,7 @@ func isEdge(k int) bool {
 func TestC06(t *testing.T) {
 	c := begin(t, "C06")
 	defer c.end()
-	c.rec.F.Rule = "v3: objects built by field assignment — every version x base x temporal combination (518,400; base and temporal level) and the effective-metric environmental domain of C03 layer 1 (quick: 331,776 x 4 temporal settings; thorough: all 33,177,600) plus a seeded pseudo-random (bijective) sample of the version x base x environmental product (quick 2,000,000, thorough 20,000,000); v2: objects never decoded (constructor of each level plus field assignment, all 729 base combinations x 4 hash-chosen optional settings), base x temporal (73,629) and base x environmental sweep with the temporal group absent (quick, 1,399,680) or the complete 141 million product (thorough). At every level of every object: score == k/10 exactly for an integer 0<=k<=100 (one decimal digit when printed), Severity() == rating band of k by integer comparison; v3 report score fields on a 1/4096 subsample. The v3 sweeps re-use one object (assign, query all levels, assign, query ...); a mismatch there is re-examined on a fresh object and, if that does not reproduce it, as the two-step case 'previous fields held and queried, these fields assigned, queried'. Non-trivial = an observation whose score lies on a band edge (0.0, 0.1, 3.9, 4.0, 6.9, 7.0, 8.9, 9.0, 10.0); enumerated points are distinct by construction."
+	c.rec.F.Rule = "v3: objects built by field assignment — every version x base x temporal combination (518,400; base and temporal level) and the effective-metric environmental domain of C03 layer 1 (quick: 331,776 x 4 temporal settings; thorough: all 33,177,600) plus a seeded pseudo-random (bijective) sample of the version x base x environmental product (quick 2,000,000, thorough 20,000,000); v2: objects never decoded (constructor of each level plus field assignment, all 729 base combinations x 4 hash-chosen optional settings), base x temporal (73,629) and base x environmental sweep with the temporal group absent (quick, 1,399,680) or the complete 141 million product (thorough). At every level of every object: score == k/10 exactly for an integer 0<=k<=100 (one decimal digit when printed), Severity() == rating band of k by integer comparison; v3 report score fields on a 1/4096 subsample. The v3 and v2 sweeps re-use one object (assign, query all levels, assign, query ...); a mismatch there is re-examined on a fresh object and, if that does not reproduce it, as the two-step case 'previous fields held and queried, these fields assigned, queried'. Non-trivial = an observation whose score lies on a band edge (0.0, 0.1, 3.9, 4.0, 6.9, 7.0, 8.9, 9.0, 10.0); enumerated points are distinct by construction."
 	c.rec.F.Assumptions = []string{"the v2 environmental exception is decided by the exact model of C05 (negative equation admits that negative tenth or 0)", "-0.0 is accepted as 0.0 (v2 returns it for zero-impact vectors)"}
 	var att attained
 	var evals, nt int64
@@ -372,6 +409,13 @@ func TestC06(t *testing.T) {
 		c.violation("v2fields", fieldCase2{}, "shape template rejected")
 		return
 	}
+	prev2 := map[*m2.Environmental]fieldCase2{}
+	recheck2 := func(o *m2.Environmental, f fieldCase2) {
+		evalEnum(c, "v2fields", f.withText(), checkC06v2, &nviol)
+		if p, seen := prev2[o]; seen && nviol == 0 {
+			evalEnum(c, "v2reassigned", reassignCase2{Prev: p.withText(), Cur: f.withText()}, checkC06v2Re, &nviol)
+		}
+	}
 	forEachV2BaseTemporal(func(i int, b [6]int, hasT bool, tt [3]int) {
 		if nviol > 0 || !mine(i) {
 			return
@@ -386,8 +430,9 @@ func TestC06(t *testing.T) {
 		ok = obs2(4, o.Temporal.Score(), o.Temporal.Severity()) && ok
 		ok = obs2(5, o.Score(), o.Severity()) && ok
 		if !ok {
-			evalEnum(c, "v2fields", fieldCase2{B: b, HasT: hasT, T: tt}.withText(), checkC06v2, &nviol)
+			recheck2(o, fieldCase2{B: b, HasT: hasT, T: tt})
 		}
+		prev2[o] = fieldCase2{B: b, HasT: hasT, T: tt}
 	})
 	// v2 objects that were never decoded: constructor plus field assignment at each level
 	{
@@ -418,8 +463,9 @@ func TestC06(t *testing.T) {
 			bind.SetV2Env(o, f.E)
 			if !obs2(5, o.Score(), o.Severity()) {
 				cl["v2-env-slow-path(negative or violation)"]++
-				evalEnum(c, "v2fields", f.withText(), checkC06v2, &nviol)
+				recheck2(o, f)
 			}
+			prev2[o] = f
 			if c.rec.SampleCount() < 6 && ei == 777 && b[0] == 1 && b[3] == 2 {
 				c.rec.Sample(f.withText())
 			}
